@@ -2,7 +2,7 @@
    The full statements (one induction over the whole template type) are kept as `C07_*_statement`; what is proved are
    the per-class rules they are assembled from (`_partial`), unbounded in ranges / entry lists / coefficients. *)
 From Coq Require Import ZArith QArith Qround Bool List.
-Require Import QV.C07.Model QV.C07.Spec QV.C07.ProofsRange QV.C07.ProofsLoop QV.C07.ProofsAtoms.
+Require Import QV.C07.Model QV.C07.Spec QV.C07.Wf QV.C07.ProofsRange QV.C07.ProofsLoop QV.C07.ProofsAtoms.
 Import ListNotations.
 Open Scope Q_scope.
 
